@@ -152,8 +152,55 @@ Fixpoint cuts (l : list nat) : list (list (list nat)) :=
   | [] => [[]]
   | x :: r => flat_map (fun c => match c with [] => [[[x]]] | b :: bs => [ (x :: b) :: bs ; [x] :: b :: bs ] end) (cuts r)
   end.
+
+(* ---------- audit walk on the latest tree, auditor rebuild ---------- *)
+Definition DEmptyRoot := DC 999.
+Definition root_val (we : bool) (t : tree) : dg :=
+  match t with Node _ _ _ None None => DEmptyRoot | _ => tval we t end.
+Definition node_val_with_epoch (t : tree) : dg := match t with Leaf _ v e => DLeafH v e | _ => tval true t end.
+
+Fixpoint walk (fuel : nat) (is_root : bool) (t : tree) (s e : nat) : list elem * list elem :=
+  match fuel with O => ([], []) | S f =>
+  if tle t <=? s then (if is_root then ([], []) else ([{| el := tlabel t; ev := node_val_with_epoch t |}], []))
+  else if e <? tmde t then ([], [])
+  else match t with
+       | Leaf l v _ => ([], [{| el := l; ev := v |}])
+       | Node _ _ _ a b =>
+         let wa := match a with Some c => walk f false c s e | None => ([], []) end in
+         let wb := match b with Some c => walk f false c s e | None => ([], []) end in
+         (fst wa ++ fst wb, snd wa ++ snd wb)
+       end
+  end.
+
+Definition auditor_root (nodes : list elem) (epoch : nat) : option dg :=
+  match ins_root empty_root nodes epoch with Some t => Some (root_val false t) | None => None end.
+Definition dgo_beq (a : option dg) (b : dg) := match a with Some x => dg_beq x b | None => false end.
+
+Definition audit_ok (latest : tree) (ts te : tree) (ep : nat) : bool :=
+  let '(unch, insd) := walk 300 true latest ep (S ep) in
+  dgo_beq (auditor_root unch 1) (root_val true ts) &&
+  dgo_beq (auditor_root (unch ++ map (fun x => {| el := el x; ev := DLeafH (ev x) (S ep) |}) insd) (S ep)) (root_val true te).
+
+(* trees after each non-empty batch prefix *)
+Fixpoint prefixes {A} (l : list A) : list (list A) := match l with [] => [[]] | x :: r => [] :: map (cons x) (prefixes r) end.
+Definition audits_ok (batches : list (list nat)) : bool :=
+  let trees := map (fun p => match run p with Some t => t | None => empty_root end) (prefixes batches) in
+  let latest := last trees empty_root in
+  let n := length batches in
+  forallb (fun ep => audit_ok latest (nth ep trees empty_root) (nth (S ep) trees empty_root) ep) (seq 0 n).
 Definition pool := [0; 1; 3; 8; 9; 15; 6].
-Definition all_cases := flat_map cuts (perms_upto pool 5).
-Time Eval vm_compute in (length all_cases, forallb ok all_cases).
+Definition all_cases := flat_map cuts (perms_upto pool 4).
+Time Eval vm_compute in (length all_cases, forallb ok all_cases, forallb audits_ok all_cases).
 Eval vm_compute in run [[1;3];[0]].
 Eval vm_compute in (tval true (match run [[1;3];[0]] with Some t => t | None => empty_root end)).
+
+(* D2 on the model: start tree {0,4,8,12} at epoch 1; malicious end tree {8,12}@1 + {2,6}@2 *)
+Definition t_start := match run [[0;4;8;12]] with Some t => t | None => empty_root end.
+Definition t_evil := match run [[8;12];[2;6]] with Some t => t | None => empty_root end.
+Definition sub0 := match t_start with Node _ _ _ (Some a) _ => a | _ => empty_root end.
+Definition sub1 := match t_start with Node _ _ _ _ (Some b) => b | _ => empty_root end.
+Definition unch := [ {| el := tlabel sub0; ev := node_val_with_epoch sub0 |}; {| el := tlabel sub1; ev := node_val_with_epoch sub1 |} ].
+Definition insd := [ mk 2; mk 6 ].
+Eval vm_compute in (tlabel sub0, tlabel sub1,
+  dgo_beq (auditor_root unch 1) (root_val true t_start),
+  dgo_beq (auditor_root (unch ++ map (fun x => {| el := el x; ev := DLeafH (ev x) 2 |}) insd) 2) (root_val true t_evil)).
